@@ -32,3 +32,18 @@ func VerifModPow(x, y, m *big.Int) (*big.Int, error) { return common.ModPow(x, y
 
 // RevocationAttrIndex exposes ProofD.revocationAttrIndex (map-order dependent).
 func (p *ProofD) VerifRevocationAttrIndex() int { return p.revocationAttrIndex() }
+
+// VerifDisclosureBuilderState exposes the randomness a DisclosureProofBuilder drew, so that the
+// model can recompute its outputs exactly.
+func (d *DisclosureProofBuilder) VerifState() (sig *CLSignature, eCommit, vCommit *big.Int, attrRandomizers map[int]*big.Int, undisclosed []int) {
+	return d.randomizedSignature, d.eCommit, d.vCommit, d.attrRandomizers, d.undisclosedAttributes
+}
+
+// VerifCredentialBuilderState exposes the randomness of a CredentialBuilder.
+func (b *CredentialBuilder) VerifState() (secret, vPrime, vPrimeCommit, u, skRandomizer *big.Int, mUser, mUserCommit map[int]*big.Int) {
+	return b.secret, b.vPrime, b.vPrimeCommit, b.u, b.skRandomizer, b.mUser, b.mUserCommit
+}
+
+func VerifGetUndisclosedAttributes(disclosed []int, n int) []int {
+	return getUndisclosedAttributes(disclosed, n)
+}
